@@ -316,6 +316,34 @@ func runC08(c *core.Ctx) {
 			if !same("Clone-independence(original)", a, g) || !same("Clone-independence(clone)", cl, gc) {
 				return
 			}
+			// windows taken from the CLONE are windows onto the clone's cells
+			y = r.Intn(h)
+			crow := cl.Row(y)
+			if !eqSlice(crow, gc.m[y]) {
+				fail("Clone:Row-contents", fmt.Sprintf("clone.Row(%d)=%v, the clone's cells are %v", y, crow, gc.m[y]))
+				return
+			}
+			x = r.Intn(w)
+			v = fresh()
+			crow[x] = v
+			gc.m[y][x] = v
+			x1 := r.Intn(w)
+			x2 := r.Range(x1, w-1)
+			csp := cl.RowSpan(x1, x2, y)
+			v = fresh()
+			csp[0] = v
+			gc.m[y][x1] = v
+			if !same("Clone-window(original)", a, g) || !same("Clone-window(clone)", cl, gc) {
+				return
+			}
+			v = fresh()
+			cl.Fill(0, 0, w-1, 0, v)
+			for xx := 0; xx < w; xx++ {
+				gc.m[0][xx] = v
+			}
+			if !same("Clone-Fill(original)", a, g) || !same("Clone-Fill(clone)", cl, gc) {
+				return
+			}
 		}
 		c.Count("clones", 1)
 	}
